@@ -328,6 +328,8 @@ def _exec_bason(plan, out, tr):
         dd = _exact(float(torch.tensor(d, dtype=vo.dtype)) if torch.is_tensor(vo) else d)
         tt = _exact(float(torch.tensor(tol, dtype=vo.dtype)) if torch.is_tensor(vo) else tol)
         fails, near = [], False
+        if any(e <= 0 for e in eo):
+            out.declined("C20.loss-outside-alphabet"); continue        # e.g. a value that rounds to 0 in float32
         for k in range(b):
             if not math.isfinite(last[k]):
                 fails.append(False); out.probe("first-step-inf"); continue
